@@ -90,7 +90,8 @@ func pemKey(k ed25519.PrivateKey) []byte {
 }
 
 var c19Kinds = []string{"valid", "other-ca", "self-signed", "wrong-name", "expired", "not-yet-valid", "intermediate-present", "intermediate-missing", "no-certificate", "expires-during-run",
-	"impostor-ca-then-genuine-leaf", "impostor-leaf-then-genuine-leaf"}
+	"impostor-ca-then-genuine-leaf", "impostor-leaf-then-genuine-leaf",
+	"expired-intermediate-present", "not-yet-valid-intermediate-present", "expired-impostor-ca-present"}
 
 type c19pki struct {
 	caCert, otherCA *x509.Certificate
@@ -130,6 +131,22 @@ func (p *c19pki) serverChain(kind string) *tls.Certificate {
 		if kind == "intermediate-present" {
 			chain = append(chain, interDER)
 		}
+	case "expired-intermediate-present", "not-yet-valid-intermediate-present":
+		// the leaf is within its validity period, the certificate that issued it is not (and is presented)
+		interKey := c19key(5)
+		nb, na := p.now.Add(-60*day), p.now.Add(-time.Hour)
+		if kind == "not-yet-valid-intermediate-present" {
+			nb, na = p.now.Add(time.Hour), p.now.Add(60*day)
+		}
+		inter, interDER := mintCert(certSpec{cn: "intermediate", notBefore: nb, notAfter: na, isCA: true}, interKey, p.caCert, p.caKey, 78)
+		signer, signerKey = inter, interKey
+		chain = append(chain, interDER)
+	case "expired-impostor-ca-present":
+		// an authority unrelated to the bundle's, itself expired, presented together with a fresh leaf it issued
+		impCAKey := c19key(7)
+		impCA, impCADER := mintCert(certSpec{cn: "impostor-ca", notBefore: p.now.Add(-60 * day), notAfter: p.now.Add(-time.Hour), isCA: true}, impCAKey, nil, nil, 79)
+		signer, signerKey = impCA, impCAKey
+		chain = append(chain, impCADER)
 	case "no-certificate":
 		return nil
 	case "impostor-ca-then-genuine-leaf", "impostor-leaf-then-genuine-leaf":
